@@ -505,7 +505,10 @@ let handle (x : sexp) : (string * string) list =
           List.exists (function GLeft s' -> ii s' = s | GEnd t -> t = (st.subs (ni s)).s_tid | _ -> false) st.log) !alts in
     let shut_done = !shutdown_started && (match Hashtbl.find_opt last_status "sh" with Some Fin -> true | _ -> false) in
     let none_parked = Hashtbl.fold (fun n stt acc -> acc && (n = "hb" || n = "" || (match stt with At _ -> false | _ -> true))) last_status true in
-    let quiescent = (not stuck) && none_parked && (shut_done || List.for_all (fun s -> asked_impl s || pre_model s) registered) in
+    (* a Flush / Heartbeat on s's own writer RETURNED an error: the write path removes (and completes) s on its own -- an
+       implementation observable, available also after the correspondence broke *)
+    let wfail_seen s = List.exists (function OWE (s', (CFlushFail | CHeartbeatFail)) -> ii s' = s | _ -> false) l in
+    let quiescent = (not stuck) && none_parked && (shut_done || List.for_all (fun s -> asked_impl s || wfail_seen s || pre_model s) registered) in
     (if quiescent then begin
         (* every subscriber completed: nobody is left blocked; a synchronous subscriber has returned *)
         Hashtbl.iter (fun n stt ->
